@@ -419,3 +419,58 @@ Proof.
   intros Herr. destruct E as [[_ [_ [E2 E3]]]|E]; [auto|]. rewrite E in Hpost. destruct Hpost as [_ [_ P]].
   destruct (p_err resp); [|congruence]. destruct P as [P1 P2]. auto.
 Qed.
+
+(* ---------- whole requests, any number of them, a command failing during any of them ---------- *)
+Definition fserve (db : sdb) (rf : request * option pfault) : sdb :=
+  match fst rf with
+  | RPushPull col cuid packs => fst (process_pushpull_f (snd rf) db col cuid packs)
+  | r => serve db r
+  end.
+
+Lemma winv_tables db db' : s_dts db' = s_dts db -> s_ops db' = s_ops db -> WInv db -> WInv db'.
+Proof.
+  intros E1 E2 [H1 H2]. split; [|unfold PosInv; rewrite E2; exact H2].
+  eapply loginv_tables; [| |exact H1]; unfold clean; cbn [s_dts s_ops]; [exact E1|].
+  rewrite E2. apply filter_ext_in'. intros o _. apply within_dts. exact E1.
+Qed.
+
+Lemma fold_packs_winv fp colname col cuid packs : forall db acc,
+  WInv db ->
+  WInv (fst (fold_left (fun '(db, acc) req =>
+               let '(db', resp, pubs) := handle_pack_f fp db colname col cuid req in
+               (db', acc ++ [(resp, pubs)])) packs (db, acc))).
+Proof.
+  induction packs as [|p packs IH]; intros db acc H; cbn [fold_left]; [exact H|].
+  pose proof (pack_erased fp db colname col cuid p H) as E.
+  destruct (handle_pack_f fp db colname col cuid p) as [[db' resp] pubs]. apply IH. apply E.
+Qed.
+
+Theorem fserve_winv db rf : WInv db -> WInv (fserve db rf).
+Proof.
+  intros H. destruct rf as [[name|col cuid|col cuid packs] f]; unfold fserve; cbn [fst snd serve].
+  - unfold create_collection. destruct (alookup str_eqb name (s_cols db)); [exact H|]. eapply winv_tables; [| |exact H]; reflexivity.
+  - unfold process_client. destruct (alookup str_eqb col (s_cols db)); [|exact H].
+    destruct (alookup str_eqb cuid (s_clients db)) as [ccol|]; [destruct (N.eqb ccol n); exact H|].
+    eapply winv_tables; [| |exact H]; reflexivity.
+  - unfold process_pushpull_f. destruct f as [[| |fp]|]; try exact H.
+    + destruct (alookup str_eqb col (s_cols db)) as [n|]; exact H.
+    + destruct (alookup str_eqb col (s_cols db)) as [n|]; [|exact H].
+      destruct (alookup str_eqb cuid (s_clients db)) as [ccol|]; [|exact H]. destruct (N.eqb ccol n); [|exact H].
+      pose proof (fold_packs_winv (Some fp) col n cuid packs db [] H) as F.
+      destruct (fold_left _ packs (db, [])) as [db' out]. exact F.
+    + destruct (alookup str_eqb col (s_cols db)) as [n|]; [|exact H].
+      destruct (alookup str_eqb cuid (s_clients db)) as [ccol|]; [|exact H]. destruct (N.eqb ccol n); [|exact H].
+      pose proof (fold_packs_winv None col n cuid packs db [] H) as F.
+      destruct (fold_left _ packs (db, [])) as [db' out]. exact F.
+Qed.
+
+(* C06 / C08: after ANY sequence of requests — any packs, checkpoints, option bits, operations — with a storage command
+   failing during any of them (collection lookup, client lookup, or any command of any pack), the acknowledged part of the
+   store is a consistent store: every datatype's log carries server sequence numbers 1..End in order, no checkpoint exceeds
+   End, no operation without its datatype, a (collection, key) names at most one datatype *)
+Theorem faulty_log_invariant (rfs : list (request * option pfault)) : LogInv (clean (fold_left fserve rfs sdb_init)).
+Proof.
+  assert (G : forall rfs db, WInv db -> WInv (fold_left fserve rfs db)).
+  { clear rfs. induction rfs as [|rf rfs IH]; intros db H; cbn [fold_left]; [exact H|]. apply IH, fserve_winv, H. }
+  apply (G rfs sdb_init). apply loginv_winv, loginv_init.
+Qed.
